@@ -142,6 +142,10 @@ def run_via_importer(case):
 def run(case):
     if case.get("via") == "importer":
         try:
+            # a child interpreter has to bootstrap basilisp first (10-40 s depending on load): replace the
+            # worker's per-case soft alarm by a generous one for this case
+            import signal
+            signal.setitimer(signal.ITIMER_REAL, 280)
             return run_via_importer(case)
         except Exception as e:
             return {"__error__": type(e).__name__, "msg": str(e)[:200]}
